@@ -105,6 +105,8 @@ type State struct {
 	NBranch    int     // number of branch decisions / concretisations in the path condition
 	WriteMark  int // objects with a smaller id existed before vpWriteMark()
 	OldWrites  int // writes to such objects since
+	PeakOn     bool // between vpPeakMark() and vpPeakDepth(): the call-depth limit is lifted and the deepest stack is recorded
+	PeakFrames int
 	Ack        map[string][]ackApp // uninterpreted-function applications made on this path
 	Lemmas     map[int]bool // proved assertions in PC (implied by the rest; skipped in feasibility queries)
 	lemOwned   bool
